@@ -84,7 +84,6 @@ Inductive pact :=
 | PAux (ns : list need) (aux : tid).
 
 Record frame := {
-  fr_framer : tid;
   fr_over : option fid;
   fr_unders : list fid;          (* primary under first *)
   beacts : list need;
@@ -98,15 +97,15 @@ Record frame := {
 }.
 
 Record framer := {
+  fm_frames : list frame;        (* the framer's own frame namespace: frame ids are indices here *)
   fm_first : fid;
   fm_sched : sched;
   fm_period : O;
   fm_original : bool;
-  fm_main0 : option fid;         (* fixed main frame of a clone, None for originals *)
+  fm_main0 : option (tid * fid); (* fixed main frame of a clone, None for originals *)
 }.
 
 Record prog := {
-  frames : list frame;
   framers : list framer;
   taskables : list tid;          (* house.taskables = fronts ++ mids ++ backs *)
   tick : O;                      (* skedder period *)
@@ -114,29 +113,29 @@ Record prog := {
 }.
 
 Definition dframe : frame :=
-  {| fr_framer := 0; fr_over := None; fr_unders := []; beacts := []; enacts := [];
+  {| fr_over := None; fr_unders := []; beacts := []; enacts := [];
      renacts := []; preacts := []; reacts := []; exacts := []; rexacts := []; fr_auxes := [] |}.
 Definition dframer : framer :=
-  {| fm_first := 0; fm_sched := Inactive; fm_period := tzero O; fm_original := true; fm_main0 := None |}.
+  {| fm_frames := []; fm_first := 0; fm_sched := Inactive; fm_period := tzero O; fm_original := true; fm_main0 := None |}.
 
 Variable P : prog.
-Definition getf (f : fid) : frame := nth f (frames P) dframe.
 Definition getm (t : tid) : framer := nth t (framers P) dframer.
+Definition getf (t : tid) (f : fid) : frame := nth f (fm_frames (getm t)) dframe.
 
 (* ---- outlines (Frame.traceOutline / traceHead), fuel = number of frames ---- *)
-Fixpoint ups (n : nat) (f : fid) : list fid :=       (* f, over f, over over f ... *)
+Fixpoint ups (t : tid) (n : nat) (f : fid) : list fid :=       (* f, over f, over over f ... *)
   match n with
   | 0 => []
-  | S n' => f :: match fr_over (getf f) with Some o => ups n' o | None => [] end
+  | S n' => f :: match fr_over (getf t f) with Some o => ups t n' o | None => [] end
   end.
-Fixpoint downs (n : nat) (f : fid) : list fid :=     (* primary under chain below f *)
+Fixpoint downs (t : tid) (n : nat) (f : fid) : list fid :=     (* primary under chain below f *)
   match n with
   | 0 => []
-  | S n' => match fr_unders (getf f) with u :: _ => u :: downs n' u | [] => [] end
+  | S n' => match fr_unders (getf t f) with u :: _ => u :: downs t n' u | [] => [] end
   end.
-Definition nfr : nat := length (frames P).
-Definition head (f : fid) : list fid := rev (ups nfr f).
-Definition outline (f : fid) : list fid := head f ++ downs nfr f.
+Definition nfr (t : tid) : nat := length (fm_frames (getm t)).
+Definition head (t : tid) (f : fid) : list fid := rev (ups t (nfr t) f).
+Definition outline (t : tid) (f : fid) : list fid := head t f ++ downs t (nfr t) f.
 
 (* ---- dynamic state ---- *)
 Record tstate := {
@@ -150,7 +149,7 @@ Record tstate := {
   recurred : Z;
   active : option fid;
   actives : list fid;
-  main : option fid;
+  main : option (tid * fid);   (* main frame (framer, frame) when running as an auxiliary *)
 }.
 
 Inductive event :=
@@ -239,7 +238,7 @@ Definition ts_set_active (s : tstate) (a : option fid) (l : list fid) : tstate :
   {| st := st s; desire := desire s; period := period s; done := done s; alive := alive s;
      fstamp := fstamp s; elapsed := elapsed s; recurred := recurred s; active := a;
      actives := l; main := main s |}.
-Definition ts_set_main (s : tstate) (m : option fid) : tstate :=
+Definition ts_set_main (s : tstate) (m : option (tid * fid)) : tstate :=
   {| st := st s; desire := desire s; period := period s; done := done s; alive := alive s;
      fstamp := fstamp s; elapsed := elapsed s; recurred := recurred s; active := active s;
      actives := actives s; main := m |}.
@@ -273,7 +272,7 @@ Fixpoint eval_need (me : tid) (w : world) (n : need) : bool :=
   | NRecurred c g => cmpZ c (recurred (gett w me)) g
   | NDone t => done (gett w t)
   | NDoneAux k f =>
-      let axs := fr_auxes (getf f) in
+      let axs := fr_auxes (getf me f) in
       match k with
       | AuxAny => existsb (fun a => done (gett w a)) axs
       | AuxAll => negb (match axs with [] => true | _ => false end)
@@ -338,30 +337,31 @@ Definition run_act (sub : ops) (me : tid) (a : act) (w : world) : world :=
 Definition run_acts (sub : ops) (me : tid) (l : list act) (w : world) : world :=
   fold_left (fun w a => run_act sub me a w) l w.
 
-(* Frame.checkEnter / Framer.checkEnter *)
-Definition frame_checkEnter (sub : ops) (exits : list fid) (w : world) (f : fid) : bool :=
-  let fr := getf f in
-  forallb (eval_need (fr_framer fr) w) (beacts fr) &&
+(* Frame.checkEnter / Framer.checkEnter (frames of framer t) *)
+Definition frame_checkEnter (sub : ops) (t : tid) (exits : list fid) (w : world) (f : fid) : bool :=
+  let fr := getf t f in
+  forallb (eval_need t w) (beacts fr) &&
   forallb (fun aux =>
              negb (match main (gett w aux) with
-                   | Some m => negb (Nat.eqb m f) && negb (memf m exits)
+                   | Some (mt, m) => negb (Nat.eqb mt t && Nat.eqb m f)
+                                     && negb (Nat.eqb mt t && memf m exits)
                    | None => false end)
              && o_checkStart sub aux w) (fr_auxes fr).
 
-Definition framer_checkEnter (sub : ops) (enters exits : list fid) (w : world) : bool :=
+Definition framer_checkEnter (sub : ops) (t : tid) (enters exits : list fid) (w : world) : bool :=
   match enters with
   | [] => false
-  | _ => forallb (frame_checkEnter sub exits w) enters
+  | _ => forallb (frame_checkEnter sub t exits w) enters
   end.
 
 (* Frame.enter *)
-Definition frame_enter (sub : ops) (w : world) (f : fid) : world :=
+Definition frame_enter (sub : ops) (t : tid) (w : world) (f : fid) : world :=
   guard w (fun w =>
-  let fr := getf f in
-  let w := emit w (EEnter (fr_framer fr) f) in
-  let w := run_acts sub (fr_framer fr) (enacts fr) w in
+  let fr := getf t f in
+  let w := emit w (EEnter t f) in
+  let w := run_acts sub t (enacts fr) w in
   fold_left (fun w aux => guard w (fun w =>
-               let w := if fm_original (getm aux) then modt w aux (fun s => ts_set_main s (Some f)) else w in
+               let w := if fm_original (getm aux) then modt w aux (fun s => ts_set_main s (Some (t, f))) else w in
                o_enterAll sub aux w)) (fr_auxes fr) w).
 
 (* Framer.enter *)
@@ -371,35 +371,35 @@ Definition framer_enter (sub : ops) (t : tid) (enters : list fid) (w : world) : 
            | [] => w
            | _ => modt w t (fun s => ts_set_clock s (stamp w) (tzero O) 0%Z)
            end in
-  fold_left (frame_enter sub) enters w).
+  fold_left (frame_enter sub t) enters w).
 
 (* Frame.exit *)
-Definition frame_exit (sub : ops) (w : world) (f : fid) : world :=
+Definition frame_exit (sub : ops) (t : tid) (w : world) (f : fid) : world :=
   guard w (fun w =>
-  let fr := getf f in
+  let fr := getf t f in
   let w := fold_left (fun w aux => guard w (fun w =>
                let w := o_exitAll sub false aux w in
                guard w (fun w =>
                if fm_original (getm aux) then modt w aux (fun s => ts_set_main s None) else w)))
              (fr_auxes fr) w in
   guard w (fun w =>
-  let w := emit w (EExit (fr_framer fr) f) in
-  run_acts sub (fr_framer fr) (exacts fr) w)).
+  let w := emit w (EExit t f) in
+  run_acts sub t (exacts fr) w)).
 
-Definition framer_exit (sub : ops) (exits : list fid) (w : world) : world :=
-  fold_left (frame_exit sub) (rev exits) w.
+Definition framer_exit (sub : ops) (t : tid) (exits : list fid) (w : world) : world :=
+  fold_left (frame_exit sub t) (rev exits) w.
 
-Definition framer_rexit (sub : ops) (l : list fid) (w : world) : world :=
-  fold_left (fun w f => run_acts sub (fr_framer (getf f)) (rexacts (getf f)) w) (rev l) w.
-Definition framer_renter (sub : ops) (l : list fid) (w : world) : world :=
-  fold_left (fun w f => run_acts sub (fr_framer (getf f)) (renacts (getf f)) w) l w.
+Definition framer_rexit (sub : ops) (t : tid) (l : list fid) (w : world) : world :=
+  fold_left (fun w f => run_acts sub t (rexacts (getf t f)) w) (rev l) w.
+Definition framer_renter (sub : ops) (t : tid) (l : list fid) (w : world) : world :=
+  fold_left (fun w f => run_acts sub t (renacts (getf t f)) w) l w.
 
 (* Framer.activate / reactivate / change / deactivate *)
 Definition activate (t : tid) (f : fid) (w : world) : world :=
-  modt w t (fun s => ts_set_active s (Some f) (outline f)).
+  modt w t (fun s => ts_set_active s (Some f) (outline t f)).
 Definition reactivate (t : tid) (w : world) : world :=
   match active (gett w t) with
-  | Some f => modt w t (fun s => ts_set_active s (Some f) (outline f))
+  | Some f => modt w t (fun s => ts_set_active s (Some f) (outline t f))
   | None => w
   end.
 Definition change (t : tid) (l : list fid) (w : world) : world :=
@@ -414,16 +414,16 @@ Fixpoint exen (nears fars : list fid) (far : fid) (acc : list fid)
       else exen ns fs far (n :: acc)
   | _, _ => ([], [], rev acc ++ nears)
   end.
-Definition ExEn (nears : list fid) (far : fid) := exen nears (outline far) far [].
+Definition ExEn (t : tid) (nears : list fid) (far : fid) := exen nears (outline t far) far [].
 
 (* Transiter.action : returns (world, taken?) *)
 Definition transit (sub : ops) (t : tid) (ns : list need) (far : fid) (w : world) : world * bool :=
   if negb (forallb (eval_need t w) ns) then (w, false) else
-  let '(exits, enters, reexens) := ExEn (actives (gett w t)) far in
-  if negb (framer_checkEnter sub enters exits w) then (w, false) else
-  let w := framer_exit sub exits w in
-  let w := framer_rexit sub reexens w in
-  let w := framer_renter sub reexens w in
+  let '(exits, enters, reexens) := ExEn t (actives (gett w t)) far in
+  if negb (framer_checkEnter sub t enters exits w) then (w, false) else
+  let w := framer_exit sub t exits w in
+  let w := framer_rexit sub t reexens w in
+  let w := framer_renter sub t reexens w in
   let w := framer_enter sub t enters w in
   let w := guard w (activate t far) in
   (w, true).
@@ -433,15 +433,15 @@ Definition suspend (sub : ops) (t : tid) (mainf : fid) (ns : list need) (aux : t
   : world * bool :=
   if done (gett w aux) then
     if negb (forallb (eval_need t w) ns) then (w, false) else
-    if match main (gett w aux) with Some m => negb (Nat.eqb m mainf) | None => false end
+    if match main (gett w aux) with Some (mt, m) => negb (Nat.eqb mt t && Nat.eqb m mainf) | None => false end
     then (w, false) else
     if negb (o_checkStart sub aux w) then (w, false) else
-    let w := if fm_original (getm aux) then modt w aux (fun s => ts_set_main s (Some mainf)) else w in
+    let w := if fm_original (getm aux) then modt w aux (fun s => ts_set_main s (Some (t, mainf))) else w in
     let w := o_enterAll sub aux w in
     let w := guard w (o_recur sub aux) in
     match crashed w with Some _ => (w, false) | None =>
     if done (gett w aux) then (deactivate_aux sub aux w, false)
-    else (change t (head mainf) w, true)
+    else (change t (head t mainf) w, true)
     end
   else
     let w := o_segue sub aux w in
@@ -481,7 +481,7 @@ Definition segue_frames (sub : ops) (t : tid) : list fid -> world -> world * boo
     match crashed w with Some _ => (w, true) | None =>
     match l with
     | [] => (w, false)
-    | f :: l' => let '(w, r) := precur sub t f (preacts (getf f)) w in
+    | f :: l' => let '(w, r) := precur sub t f (preacts (getf t f)) w in
                  if r then (w, true) else go l' w
     end end.
 
@@ -491,7 +491,7 @@ Definition framer_segue (sub : ops) (t : tid) (w : world) : world :=
   let s := gett w t in
   let w := sett w t (ts_set_clock s (fstamp s) (tsub O (stamp w) (fstamp s)) (recurred s + 1)%Z) in
   let acts := actives (gett w t) in
-  let w := fold_left (fun w f => fold_left (fun w aux => guard w (o_segue sub aux)) (fr_auxes (getf f)) w) acts w in
+  let w := fold_left (fun w f => fold_left (fun w aux => guard w (o_segue sub aux)) (fr_auxes (getf t f)) w) acts w in
   fst (segue_frames sub t acts w)).
 
 (* Framer.recur / Frame.recur *)
@@ -499,8 +499,8 @@ Definition framer_recur (sub : ops) (t : tid) (w : world) : world :=
   guard w (fun w =>
   fold_left (fun w f => guard w (fun w =>
      let w := emit w (ERecur t f) in
-     let w := run_acts sub t (reacts (getf f)) w in
-     fold_left (fun w aux => guard w (o_recur sub aux)) (fr_auxes (getf f)) w))
+     let w := run_acts sub t (reacts (getf t f)) w in
+     fold_left (fun w aux => guard w (o_recur sub aux)) (fr_auxes (getf t f)) w))
    (actives (gett w t)) w).
 
 Definition framer_enterAll (sub : ops) (t : tid) (w : world) : world :=
@@ -511,13 +511,13 @@ Definition framer_enterAll (sub : ops) (t : tid) (w : world) : world :=
 
 Definition framer_exitAll (sub : ops) (abort : bool) (t : tid) (w : world) : world :=
   guard w (fun w =>
-  let w := framer_exit sub (actives (gett w t)) w in
+  let w := framer_exit sub t (actives (gett w t)) w in
   guard w (fun w =>
   let w := modt w t (fun s => ts_set_active s None []) in
   if abort then w else modt w t (fun s => ts_set_done s true))).
 
 Definition framer_checkStart (sub : ops) (t : tid) (w : world) : bool :=
-  framer_checkEnter sub (outline (fm_first (getm t))) [] w.
+  framer_checkEnter sub t (outline t (fm_first (getm t))) [] w.
 
 Definition abort_ts (s : tstate) : tstate := ts_set_st (ts_set_desire s CAbort) Aborted.
 
